@@ -147,15 +147,6 @@ var valuePool = []val{
 
 var kinds = []string{"dynamic", "emadynamic", "emathroughput", "windowedthroughput", "totalthroughput"}
 
-func hasEmptyName(fs []string) bool {
-	for _, f := range fs {
-		if f == "" {
-			return true
-		}
-	}
-	return false
-}
-
 func baseName(f string) string { return strings.TrimPrefix(f, config.RootPrefix) }
 
 func encFields(fs []string) string {
@@ -249,7 +240,7 @@ func forcedRate(r *kit.Rng) string {
 	case 6:
 		return "-" // leave the sampler's own answer
 	case 7:
-		return strconv.Itoa(-1 - r.Intn(3)) // "dynsampler being broken": negative
+		return strconv.Itoa(-1 - r.Intn(3)) // "dynsampler being broken": negative (clamped to 1 since 6dd5492)
 	case 8:
 		return "1099511627776"
 	}
@@ -406,9 +397,6 @@ func genPerm(r *kit.Rng, maxLen int) kit.Case {
 		ops = append(ops, "key "+encTrace(m))
 	}
 	ns := 3 + r.Intn(6)
-	if hasEmptyName(fields) {
-		ns = 0 // a sampler cannot be started with "" in its FieldList (config.GetKeyFields indexes field[0])
-	}
 	for i := 0; i < ns; i++ {
 		t := base
 		if r.Chance(50) {
@@ -519,9 +507,6 @@ func genEdge(r *kit.Rng) kit.Case {
 		ops = append(ops, "key "+encTrace(dupSpan(r, t)))
 	}
 	for _, k := range kinds {
-		if hasEmptyName(fields) {
-			break
-		}
 		t := traces[r.Intn(len(traces))]
 		ops = append(ops, fmt.Sprintf("sample %s %s %d %s", k, forcedRate(r), 1+r.Intn(1000000), encTrace(t)))
 	}
